@@ -178,6 +178,13 @@ class SysRun(object):
                     from jsonrpclib import Fault
 
                     return Fault(-5, "application fault %s" % name)
+                if kind == "sharedfault":
+                    # the method reports its errors with one Fault object it keeps (a module-level constant in user code)
+                    from jsonrpclib import Fault
+
+                    if getattr(run, "_shared_fault", None) is None:
+                        run._shared_fault = Fault(-7, "shared application fault")
+                    return run._shared_fault
                 return {"m": name, "a": list(args), "k": kwargs}
             finally:
                 if not run.ref_mode:
@@ -191,6 +198,11 @@ class SysRun(object):
             two.__name__ = method.__name__
             return two
         return method
+
+    def rebind(self, name, spec):
+        f = self.make_method(name + "@2", spec)
+        self.direct_table[name] = f
+        self.server.register_function(f, name)
 
     def shared_object(self, value):
         """One object per run for all 'shared' callables (identity matters, not only equality)."""
@@ -265,6 +277,8 @@ class SysRun(object):
         else:
             unix = sv.get("family") == "unix"
             addr = "/sim/sock" if unix else ("sim", 0)
+            if unix and sv.get("abstract"):
+                addr = "\0sim-abstract"  # Linux abstract-namespace address
             fam = socket.AF_UNIX if unix else socket.AF_INET
             class Quiet(js.SimpleJSONRPCRequestHandler):
                 def log_message(self, format, *args):
@@ -334,7 +348,8 @@ class SysRun(object):
     def client_config(self, c):
         import jsonrpclib.config as cfgmod
 
-        return cfgmod.Config(version=c.get("version") or 2.0, use_jsonclass=c.get("use_jsonclass", True))
+        return cfgmod.Config(version=c.get("version") or 2.0, use_jsonclass=c.get("use_jsonclass", True),
+                             content_type=c.get("content_type", "application/json-rpc"))
 
     # -- clients --------------------------------------------------------------------
     def _invoke(self, target, method, params):
@@ -352,9 +367,13 @@ class SysRun(object):
         s.emit("op.call", ci, oi, kind)
         out = None
         try:
-            if kind == "call":
+            if kind in ("call", "call2"):
                 val = self._invoke(proxy, op[1], op[2])
                 out = ["value", val]
+            elif kind == "rebind":
+                # the server's owner registers another callable under a name that is already in use
+                self.rebind(op[1], op[2])
+                out = ["rebound"]
             elif kind == "hcall":
                 # a kept intermediate handle used for several dotted calls
                 handle = proxy
